@@ -296,7 +296,7 @@ func pertClass(kind string) string {
 		return "method-differs"
 	case "algorithm":
 		return "algorithm-differs"
-	case "url-request", "url-header":
+	case "url-request", "url-header", "url-star":
 		return "url-differs"
 	}
 	return kind // scheme-not-enabled, response-digit, header-missing
@@ -423,6 +423,14 @@ func applyPert(b *baseCtx, p pert) (v verdict, expectAccept bool, ok bool) {
 			return v, false, false
 		}
 		return safeVerify(mkReq(base.Method(p.Alt), b.sreq.URL, b.authz), c.User, c.Pass, b.methods, c.Realm, c.Nonce), false, true
+
+	case "url-star":
+		// "OPTIONS * RTSP/1.0": the request parser yields a request without URL; the same Authorization is
+		// replayed on it (the perturbed field is the request URL: whatever the header says must be refused)
+		if !digest {
+			return v, false, false
+		}
+		return safeVerify(mkReq(base.Options, nil, b.authz), c.User, c.Pass, b.methods, c.Realm, c.Nonce), false, true
 
 	case "url-request":
 		if !digest {
